@@ -5,6 +5,7 @@
    path: *_MDQ_MSST19); the sign plane travels separately and is restored last.  The inner codec is a parameter:
    any function whose output is within the log-domain bound.  No proofs in this file. *)
 From Coq Require Import Reals List Bool ZArith String.
+From Flocq Require Import Core.Core.
 Import ListNotations.
 Require Import SZV.Gen.SrcFacts.
 Local Open Scope R_scope.
@@ -23,6 +24,14 @@ Definition from_log (b tb:R) (minlog e t:R) (neg:bool) (y':R) : R :=
   let m := if Rlt_dec y' (zero_threshold b tb minlog e t) then 0 else exp2R y' in
   if neg then - m else m.
 Definition is_neg (x:R) : bool := if Rlt_dec x 0 then true else false.
+
+(* the exact-value codec (compressSingle{Float,Double}Value) over the reals: the value minus the median, cut toward zero to p significant bits;
+   the kernels keep 12 + radExpo - reqExpo stored bits (9 + .. for float) = sign, exponent field and radExpo - reqExpo mantissa bits, i.e.
+   p = radExpo - reqExpo + 1 significant ones, where radExpo = mag R - 1 for the range radius R the kernel is handed and reqExpo = mag e - 1
+   (computeReqLength_*; the formula is part of the transcribed kernels of Model/QuantFloat.v and compared with the code there) *)
+Definition cut (p:Z) (v:R) : R := round radix2 (FLX_exp p) Ztrunc v.
+Definition keep (rad e:R) : Z := (mag radix2 rad - mag radix2 e + 1)%Z.
+Definition exact_codec (rad e median x:R) : R := cut (keep rad e) (x - median) + median.
 
 (* the constants of the implementation, read from the source on every run (scaled by 10^4) *)
 Local Open Scope Z_scope.
